@@ -15,7 +15,7 @@ import (
 )
 
 func init() {
-	props["C19"] = &propDef{extraPkgs: []string{jsonPatchPkg}, run: runC19, explanation: "Partial (panics raised by constructs in the module's own code and by the reviewed preconditions of third-party callees; not termination, stack depth or arbitrary third-party internals). Decided statically: a closed inventory of every panic-capable construct in the module functions reachable from the untrusted entry points — unchecked type assertions, dereferences (field access, load, pointer-receiver call, pass to a dereferencing callee) of pointers that JSON decoding can leave nil, index / slice expressions, explicit panic, integer division, make with computed size, definite nil dereferences (value tested nil on the path and then used), and interface-keyed map accesses and interface comparisons with possibly unhashable values, and calls with panicking preconditions (ed25519 key sizes; json-patch v4.1.0 Apply, which must run under a deferred recover that becomes an error, receive one operation per call and be preceded by a copy-into-itself check, because the library copy aliases nodes) — each discharged by a dominating guard found by the must-pass-through engine (through helper boundaries) or by a reviewed one-line reason keyed by function and expression. Anything undischarged is a violation naming the construct. The copy-into-itself check reads array-index tokens with the strconv function(s) the library's array containers use. The canonicalizer's table rules (C05) run inside this check; reviewed entries are keyed by the enclosing named function and the expression, with the dominating conditions they need. C19.Z (known-nil handed to a dereferencing callee), C19.N on (nil,nil)-helper results; the C05 scanner rules (including the position-loop rule, a necessary condition of termination) run here. The parser's validator fields are written by New and their own options only (never nil); reviewed entries follow call-and-wrap helpers. Copy / move destination index bounded before Apply (D14); nil-returning lookup functions are nullable sources."}
+	props["C19"] = &propDef{extraPkgs: []string{jsonPatchPkg}, run: runC19, explanation: "Partial (panics raised by constructs in the module's own code and by the reviewed preconditions of third-party callees; not termination, stack depth or arbitrary third-party internals). Decided statically: a closed inventory of every panic-capable construct in the module functions reachable from the untrusted entry points — unchecked type assertions, dereferences (field access, load, pointer-receiver call, pass to a dereferencing callee) of pointers that JSON decoding can leave nil, index / slice expressions, explicit panic, integer division, make with computed size, definite nil dereferences (value tested nil on the path and then used), and interface-keyed map accesses and interface comparisons with possibly unhashable values, and calls with panicking preconditions (ed25519 key sizes; json-patch v4.1.0 Apply, which must run under a deferred recover that becomes an error, receive one operation per call and be preceded by a copy-into-itself check, because the library copy aliases nodes) — each discharged by a dominating guard found by the must-pass-through engine (through helper boundaries) or by a reviewed one-line reason keyed by function and expression. Anything undischarged is a violation naming the construct. The copy-into-itself check reads array-index tokens with the strconv function(s) the library's array containers use. The canonicalizer's table rules (C05) run inside this check; reviewed entries are keyed by the enclosing named function and the expression, with the dominating conditions they need. C19.Z (known-nil handed to a dereferencing callee), C19.N on (nil,nil)-helper results; the C05 scanner rules (including the position-loop rule, a necessary condition of termination) run here. The parser's validator fields are written by New and their own options only (never nil); reviewed entries follow call-and-wrap helpers. Copy / move destination index bounded before Apply (D14); nil-returning lookup functions are nullable sources. JSON-pointer tokens are un-escaped after the split; the capacity of make is judged like its length; X[:0] needs no guard; an index is also discharged by both bound tests among the conditions holding at the site."}
 }
 
 // reviewedPanicSites: function (short name) -> expression (canonical path / description) -> reason.
@@ -433,6 +433,21 @@ func (k *c19) isReviewed(f *ssa.Function, expr string, site ...ssa.Instruction) 
 			}
 		}
 	}
+	if len(es) == 0 && f.Object() != nil && !f.Object().Exported() && f.Signature.Recv() == nil && f.Parent() == nil {
+		// a function literal that captures nothing written as a package-level function: the literal's entry applies where
+		// neither the expression nor the conditions it needs name a parameter or a captured variable
+		pkgPrefix := strings.TrimSuffix(short(f.String()), f.Name())
+		for fn, mm := range reviewedPanicSites {
+			if !strings.HasPrefix(fn, pkgPrefix) || !strings.HasSuffix(fn, "$") || strings.Contains(expr, "$") {
+				continue
+			}
+			for _, en := range mm[expr] {
+				if !strings.Contains(strings.Join(en.needs, " "), "$") {
+					es = append(es, en)
+				}
+			}
+		}
+	}
 	if len(es) == 0 {
 		// the construct moved, with its function's tail, into an unexported helper that has exactly one call site: the
 		// entry of the calling function applies, the helper's parameters read as the call's arguments and the
@@ -777,6 +792,102 @@ func (k *c19) indexDischarged(f *ssa.Function, at ssa.Instruction, X, idx ssa.Va
 	if kc, ok := idx.(*ssa.Const); ok {
 		kv, _ := constant.Int64Val(kc.Value)
 		if k.lenAtLeast(f, at, lenX, kv+1) {
+			return true
+		}
+	}
+	// both bounds tested on the way here, in whatever spelling: the conditions that hold at this point include
+	// 0 <= idx and idx < len(X) (canonical forms of the branch conditions)
+	{
+		ip := c.Path(idx, nil)
+		lo, hi := false, false
+		for _, cnd := range c.condsOf(at.Block()) {
+			switch cnd {
+			case "(0 <= " + ip + ")=true", "(" + ip + " >= 0)=true", "(" + ip + " < 0)=false", "(-1 < " + ip + ")=true":
+				lo = true
+			case "(" + ip + " < " + lenX + ")=true", "(" + lenX + " > " + ip + ")=true", "(" + ip + " >= " + lenX + ")=false", "(" + lenX + " <= " + ip + ")=false":
+				hi = true
+			}
+		}
+		if lo && hi && !strings.Contains(ip, "phi(") {
+			return true
+		}
+	}
+	// … the same two tests found on the values themselves (a loop-carried container has no stable spelling): branch
+	// edges that dominate the site and compare this index value with 0 and with len of this very container value
+	{
+		lo, hi := false, false
+		isLenX := func(v ssa.Value) bool {
+			cl, ok := v.(*ssa.Call)
+			if !ok {
+				return false
+			}
+			bi, isB := cl.Call.Value.(*ssa.Builtin)
+			return isB && bi.Name() == "len" && len(cl.Call.Args) == 1 && cl.Call.Args[0] == X
+		}
+		isZero := func(v ssa.Value) bool {
+			kc, ok := v.(*ssa.Const)
+			if !ok || kc.Value == nil {
+				return false
+			}
+			kv, ok2 := constant.Int64Val(kc.Value)
+			return ok2 && kv == 0
+		}
+		for _, b := range f.Blocks {
+			iff, ok := b.Instrs[len(b.Instrs)-1].(*ssa.If)
+			if !ok || len(b.Succs) != 2 || b.Succs[0] == b.Succs[1] {
+				continue
+			}
+			bo, isBO := iff.Cond.(*ssa.BinOp)
+			if !isBO || !isCmp(bo.Op) {
+				continue
+			}
+			for si, succ := range b.Succs {
+				if len(succ.Preds) != 1 || !succ.Dominates(at.Block()) {
+					continue
+				}
+				truth := si == 0
+				op := bo.Op
+				l, r := bo.X, bo.Y
+				// normalise to "idx OP other" holding on this edge
+				if r == idx {
+					l, r = r, l
+					switch op {
+					case token.LSS:
+						op = token.GTR
+					case token.GTR:
+						op = token.LSS
+					case token.LEQ:
+						op = token.GEQ
+					case token.GEQ:
+						op = token.LEQ
+					}
+				}
+				if l != idx {
+					continue
+				}
+				if !truth {
+					switch op {
+					case token.LSS:
+						op = token.GEQ
+					case token.GEQ:
+						op = token.LSS
+					case token.GTR:
+						op = token.LEQ
+					case token.LEQ:
+						op = token.GTR
+					default:
+						continue
+					}
+				}
+				if op == token.GEQ && isZero(r) {
+					lo = true
+				}
+				if op == token.LSS && isLenX(r) {
+					hi = true
+				}
+			}
+		}
+		if _, isPhi := idx.(*ssa.Phi); lo && hi && !isPhi {
 			return true
 		}
 	}
@@ -1206,6 +1317,14 @@ func (k *c19) sliceBounds(f *ssa.Function, s *ssa.Slice) {
 			}
 		}
 	}
+	// s[:0] (no lower bound): always within the capacity
+	if s.Low == nil && s.Max == nil {
+		if kc, ok := s.High.(*ssa.Const); ok && kc.Value != nil {
+			if kv, _ := constant.Int64Val(kc.Value); kv == 0 {
+				return
+			}
+		}
+	}
 	e := c.Path(s, nil)
 	key := short(f.String()) + ": " + e
 	// constant bounds within a fixed-size array
@@ -1237,6 +1356,19 @@ func (k *c19) sliceBounds(f *ssa.Function, s *ssa.Slice) {
 		if kv, ok2 := constant.Int64Val(kc.Value); ok2 && kv >= 0 && k.lenAtLeast(f, s, "len("+xp+")", kv) {
 			k.obl("C19.B", key, true, instrPos(s), "constant lower bound not above a length known on every path")
 			return
+		}
+	}
+	// X[k:len(X)-j] with len(X) >= k+j known
+	if kc, ok := s.Low.(*ssa.Const); ok && s.High != nil && s.Max == nil {
+		if bo, isB := s.High.(*ssa.BinOp); isB && bo.Op == token.SUB && c.Path(bo.X, nil) == "len("+xp+")" {
+			if jc, isJ := bo.Y.(*ssa.Const); isJ && jc.Value != nil && kc.Value != nil {
+				kv, ok1 := constant.Int64Val(kc.Value)
+				jv, ok2 := constant.Int64Val(jc.Value)
+				if ok1 && ok2 && kv >= 0 && jv >= 0 && k.lenAtLeast(f, s, "len("+xp+")", kv+jv) {
+					k.obl("C19.B", key, true, instrPos(s), "constant bounds k and len-j with a length of at least k+j known on every path")
+					return
+				}
+			}
 		}
 	}
 	// X[:len(A)] (or X[len(A):]) behind the rejection of len(A) >= len(X) / len(A) > len(X): the bound is within len(X)
@@ -1426,12 +1558,25 @@ func (k *c19) misc(f *ssa.Function) {
 				k.obl("C19.D", short(f.String())+": "+c.Path(x, nil), ok, x.Pos(), "integer division by a non-constant divisor: "+orUndischarged(why, ok))
 			}
 		case *ssa.MakeSlice:
+			nonNeg := func(lp string) bool {
+				// len(...) and sums of lengths are non-negative
+				return (strings.HasPrefix(lp, "len(") && !strings.Contains(lp, " - ")) || (strings.HasPrefix(lp, "(len(") && strings.Contains(lp, " + len(") && !strings.Contains(lp, " - "))
+			}
+			// (the capacity, where given apart from the length, is held to the same: a negative one panics as well)
+			if x.Cap != nil && x.Cap != x.Len {
+				if _, isK := x.Cap.(*ssa.Const); !isK && !nonNegValue(x.Cap, 0) {
+					if cp := c.Path(x.Cap, nil); !nonNeg(cp) {
+						why, ok := k.isReviewed(f, "make:cap:"+cp, x)
+						k.obl("C19.M", short(f.String())+": make(cap="+cp+")", ok, x.Pos(), "make with a computed capacity (negative panics): "+orUndischarged(why, ok))
+					}
+				}
+			}
 			if _, ok := x.Len.(*ssa.Const); ok {
 				return
 			}
 			lp := c.Path(x.Len, nil)
-			if strings.HasPrefix(lp, "len(") || strings.HasPrefix(lp, "(len(") && strings.Contains(lp, " + len(") {
-				return // len(...) and sums of lengths are non-negative
+			if nonNeg(lp) || nonNegValue(x.Len, 0) {
+				return
 			}
 			why, ok := k.isReviewed(f, "make:"+lp, x)
 			k.obl("C19.M", short(f.String())+": make(len="+lp+")", ok, x.Pos(), "make with a computed length (negative panics): "+orUndischarged(why, ok))
@@ -1724,7 +1869,11 @@ func (k *c19) aliasingCopy(f *ssa.Function, cl *ssa.Call) {
 				// (the index compared is the destination's own: the number parsed from the last reference token — not a
 				// value that a walk over the tokens before it may have overwritten)
 				isDest := func(p string) bool {
-					return strings.HasPrefix(p, "strconv.Atoi(") && strings.HasSuffix(p, " - 1)])#0") && !strings.Contains(p, "phi(")
+					if strings.Contains(p, "phi(") || strings.Contains(p, "[ι]") {
+						return false
+					}
+					// the number parsed from the last token, read where it was parsed or out of what a parsing helper hands back
+					return (strings.HasPrefix(p, "strconv.Atoi(") && strings.HasSuffix(p, " - 1)])#0")) || (strings.Contains(p, "doccomposer.") && strings.Contains(p, ")#0"))
 				}
 				if (isDest(l) && strings.Contains(r, "len(")) || (isDest(r) && strings.Contains(l, "len(")) {
 					bounded = true
@@ -1735,6 +1884,43 @@ func (k *c19) aliasingCopy(f *ssa.Function, cl *ssa.Call) {
 	}}
 	okI, wI, _ := c.Guard(f, nil, idxChk, func(i ssa.Instruction) bool { return i == ssa.Instruction(cl) })
 	k.obl("C19.G", short(f.String())+": json-patch copy / move destination index bounded", okI, cl.Pos(), "json-patch v4.1.0 partialArray.set allocates index+1 slots for the destination of copy and move; before Apply the operation must have passed a module check that refuses a destination index beyond the end of the array it addresses", wI...)
+	// (d) the guards read a JSON pointer the way RFC 6901 says: split on "/" first, then un-escape each reference
+	// token — un-escaping the whole pointer first turns "~1" into a separator, the walk goes astray and the guard lets
+	// through what it was written to refuse
+	{
+		var early []string
+		n := 0
+		for _, g := range c.Funcs {
+			if pkgPathOf(g) != pkgPathOf(f) {
+				continue
+			}
+			forEachInstr(g, func(in ssa.Instruction) {
+				sc, isC := in.(*ssa.Call)
+				if !isC || sc.Call.StaticCallee() == nil || len(sc.Call.Args) < 2 {
+					return
+				}
+				switch sc.Call.StaticCallee().String() {
+				case "strings.Split", "strings.SplitN", "strings.SplitAfter", "strings.SplitAfterN":
+				default:
+					return
+				}
+				if c.Path(sc.Call.Args[1], nil) != `"/"` {
+					return
+				}
+				n++
+				for v := range backSlice(sc.Call.Args[0]) {
+					if rc, isR := v.(*ssa.Call); isR && rc.Call.StaticCallee() != nil {
+						switch rc.Call.StaticCallee().String() {
+						case "(*strings.Replacer).Replace", "strings.ReplaceAll", "strings.Replace":
+							early = append(early, c.pos(sc.Pos())+": "+short(g.String())+" splits "+c.Path(sc.Call.Args[0], nil))
+						}
+					}
+				}
+			})
+		}
+		sort.Strings(early)
+		k.obl("C19.G", short(f.String())+": json-pointer tokens un-escaped after the split", n > 0 && len(early) == 0, cl.Pos(), fmt.Sprintf("%d split(s) of a pointer on \"/\" in the package; each splits the pointer as written — reference tokens are un-escaped one by one afterwards (RFC 6901 section 4)", n), early...)
+	}
 	ok, w, _ := c.Guard(f, nil, anyOf("copy-into-itself refused, or not a copy", chk, notCopy), func(i ssa.Instruction) bool { return i == ssa.Instruction(cl) })
 	k.obl("C19.G", short(f.String())+": json-patch copy into itself refused", ok, cl.Pos(), why+"; before Apply the operation must have passed a check (a module function returning an error that inspects \"op\" == \"copy\", \"from\" and \"path\" of this operation) refusing a copy whose from is a proper prefix of its path", w...)
 }
@@ -2331,4 +2517,52 @@ func growsFrom(x, base ssa.Value) bool {
 		return false
 	}
 	return ok(x, 0)
+}
+
+// nonNegValue: v is a length, a non-negative constant, or a sum / product / max of such values.
+func nonNegValue(v ssa.Value, d int) bool {
+	if d > 6 {
+		return false
+	}
+	switch x := v.(type) {
+	case *ssa.Const:
+		if x.Value == nil {
+			return false
+		}
+		kv, ok := constant.Int64Val(x.Value)
+		return ok && kv >= 0
+	case *ssa.Call:
+		if bi, ok := x.Call.Value.(*ssa.Builtin); ok {
+			switch bi.Name() {
+			case "len", "cap":
+				return true
+			case "max":
+				for _, a := range x.Call.Args {
+					if nonNegValue(a, d+1) {
+						return true
+					}
+				}
+				return false
+			case "min":
+				for _, a := range x.Call.Args {
+					if !nonNegValue(a, d+1) {
+						return false
+					}
+				}
+				return len(x.Call.Args) > 0
+			}
+		}
+	case *ssa.BinOp:
+		if x.Op == token.ADD || x.Op == token.MUL {
+			return nonNegValue(x.X, d+1) && nonNegValue(x.Y, d+1)
+		}
+	case *ssa.Phi:
+		for _, e := range x.Edges {
+			if !nonNegValue(e, d+1) {
+				return false
+			}
+		}
+		return len(x.Edges) > 0
+	}
+	return false
 }
